@@ -16,7 +16,7 @@ from fractions import Fraction
 
 VERIF = os.path.dirname(os.path.dirname(os.path.abspath(__file__)))
 REPO = os.environ.get('EPSIE_REPO', '/repo')
-LEAN_DIR = os.path.join(VERIF, 'lean')
+LEAN_DIR = os.environ.get('EPSIE_LEAN_DIR', os.path.join(VERIF, 'lean'))
 EVIDENCE_DIR = os.path.join(VERIF, 'evidence')
 REPLAY_DIR = os.path.join(VERIF, 'replays')
 CORPUS_DIR = os.path.join(VERIF, 'corpus')
